@@ -9,7 +9,7 @@ S=/verif/seeded/$1
 WT=/tmp/wt-confirm-$$
 git -C /repo worktree add --detach $WT HEAD -q || exit 2
 ( cd $WT
-  git apply $S/patch.diff || { echo "CONFIRM: patch does not apply"; exit 3; }
+  git apply $S/patch.diff 2>/dev/null || git apply $S/patch_rebased.diff || { echo "CONFIRM: patch does not apply"; exit 3; }
   go build ./... || { echo "CONFIRM: does not build"; exit 3; }
   CP=$(python3 -c "import json;print(json.load(open('$S/meta.json'))['demo']['copy_to'])")
   RUN=$(python3 -c "import json;print(json.load(open('$S/meta.json'))['demo']['run'])")
